@@ -614,6 +614,14 @@ fn pattern_uses_outer_bindings(
         match element {
             crate::ast::PathElement::Node(node) => {
                 if let Some(alias) = &node.variable {
+                    // A node variable bound earlier (anywhere in the chain, not only at its
+                    // ends) joins this pattern to the incoming rows.
+                    if matches!(
+                        known_bindings.get(alias),
+                        Some(BindingKind::Node | BindingKind::Unknown)
+                    ) {
+                        return true;
+                    }
                     local_aliases.insert(alias.clone());
                 }
                 if property_map_uses_outer_bindings(
